@@ -392,7 +392,7 @@ func (r *rig) start() (err error) {
 
 // gate is installed as the Mirror's verifGate hook.
 func (r *rig) gate(point string) {
-	if point != "Prevote:afterLookup" && point != "Precommit:afterLookup" {
+	if point != "Prevote:afterLookup" && point != "Precommit:afterLookup" && point != "PH:afterCheck" {
 		return
 	}
 	r.gateMu.Lock()
